@@ -116,7 +116,7 @@ ADD = {
  "C10": "Session 3: file-level names (sprites, scripts, consts, subs, MSG scripts) spelled like register aliases, instruction aliases, enum consts and builtin consts, each compared with its fresh renaming. A function body is an inner scope of its parameter list (body-level locals and consts shadow a parameter).",
  "C11": "Session 3: NaN among the float operands.",
  "C13": "Session 3: nested function definitions and const items between the labelled statements. The real-format family covers old-ECL timeline scripts and continues bytes -> decompile -> recompile -> stored times (M2).",
- "C14": "Session 3: nested labelled blocks (12 outer x 9 inner labels incl. three spellings of the full mask, 1-3 levels).",
+ "C14": "Session 3: nested labelled blocks (12 outer x 9 inner labels incl. three spellings of the full mask, 1-3 levels). Switches in assignments with compound cases (one assignment per explicit case), run by M1 on every difficulty under every label.",
  "C15": "Session 3: the {zero, non-zero}^3 grid of (mask, velocity, acceleration).",
  "C16": "Session 3: one compiled seed for every (tool, game) pair.",
  "C18": "Session 3: ANM scripts with explicit numbers different from their position (3 numbering variants).",
